@@ -41,6 +41,11 @@ pub struct Ran {
     /// execution of the decoded program (if decoding worked)
     pub exec_decoded: Option<Result<(), String>>,
     pub witness_typing_ok: bool,
+    /// the program contains an assertl and an assertr node with the same CMR (a case whose two
+    /// branches are identical, pruned to the left at one place and to the right at another)
+    pub mirror_asserts: bool,
+    /// every witness value re-decodes from its own compact bits to the same padded bits
+    pub witness_values_consistent: bool,
     pub n_nodes: usize,
     pub n_case: usize,
     pub n_witness: usize,
@@ -76,7 +81,7 @@ impl Outcome {
             Outcome::InstantiateErr(m) => format!("InstantiateErr: {}", last_line(m)),
             Outcome::SatisfyErr(m) => format!("SatisfyErr: {}", last_line(m)),
             Outcome::Ran(r) => format!(
-                "Ran(decode={}, exec={}, exec_decoded={}, cmr_eq={}, wit_typing={})",
+                "Ran(decode={}, exec={}, exec_decoded={}, cmr_eq={}, wit_typing={}, mirror_asserts={})",
                 r.decoded.as_ref().map(|_| "ok".to_string()).unwrap_or_else(|e| format!("ERR {e}")),
                 r.exec.as_ref().map(|_| "ok".to_string()).unwrap_or_else(|e| format!("ERR {e}")),
                 match &r.exec_decoded {
@@ -85,7 +90,8 @@ impl Outcome {
                     Some(Err(e)) => format!("ERR {e}"),
                 },
                 r.commit_cmr == r.redeem_cmr,
-                r.witness_typing_ok
+                r.witness_typing_ok,
+                r.mirror_asserts
             ),
             Outcome::Panicked { stage, msg } => format!("PANIC at {stage:?}: {msg}"),
         }
@@ -145,6 +151,9 @@ pub fn run_satisfied(commit_cmr: Cmr, unit_to_unit: bool, s: &SatisfiedProgram, 
     // inspect
     let insp = catch(|| {
         let mut ok = true;
+        let mut consistent = true;
+        let mut assert_l: Vec<Cmr> = vec![];
+        let mut assert_r: Vec<Cmr> = vec![];
         let (mut n, mut ncase, mut nwit, mut wbits) = (0usize, 0usize, 0usize, 0usize);
         for item in redeem.as_ref().post_order_iter::<InternalSharing>() {
             n += 1;
@@ -155,14 +164,35 @@ pub fn run_satisfied(commit_cmr: Cmr, unit_to_unit: bool, s: &SatisfiedProgram, 
                     if !v.is_of_type(&item.node.arrow().target) {
                         ok = false;
                     }
+                    // self-consistency of the value object (compact bits vs padded bits)
+                    let compact: Vec<bool> = v.iter_compact().collect();
+                    let bytes: Vec<u8> = compact.chunks(8).map(|c| c.iter().enumerate().fold(0u8, |b, (i, x)| b | ((*x as u8) << (7 - i)))).collect();
+                    let mut it = BitIter::from(bytes.into_iter());
+                    match simfony::simplicity::Value::from_compact_bits(&mut it, &item.node.arrow().target) {
+                        Ok(w) => {
+                            if !w.iter_padded().eq(v.iter_padded()) {
+                                consistent = false;
+                            }
+                        }
+                        Err(_) => consistent = false,
+                    }
                 }
-                Inner::Case(..) | Inner::AssertL(..) | Inner::AssertR(..) => ncase += 1,
+                Inner::AssertL(..) => {
+                    assert_l.push(item.node.cmr());
+                    ncase += 1
+                }
+                Inner::AssertR(..) => {
+                    assert_r.push(item.node.cmr());
+                    ncase += 1
+                }
+                Inner::Case(..) => ncase += 1,
                 _ => {}
             }
         }
-        (ok, n, ncase, nwit, wbits)
+        let mirror = assert_l.iter().any(|c| assert_r.contains(c));
+        (ok, consistent, mirror, n, ncase, nwit, wbits)
     });
-    let (witness_typing_ok, n_nodes, n_case, n_witness, witness_bits) = match insp {
+    let (witness_typing_ok, witness_values_consistent, mirror_asserts, n_nodes, n_case, n_witness, witness_bits) = match insp {
         Ok(x) => x,
         Err(msg) => return Outcome::Panicked { stage: Stage::Inspect, msg },
     };
@@ -198,6 +228,8 @@ pub fn run_satisfied(commit_cmr: Cmr, unit_to_unit: bool, s: &SatisfiedProgram, 
         exec: exec_orig,
         exec_decoded,
         witness_typing_ok,
+        mirror_asserts,
+        witness_values_consistent,
         n_nodes,
         n_case,
         n_witness,
